@@ -20,8 +20,8 @@ RULE = (
     "{5,20}), an alphabet of 3 well-conditioned matrices with 2..5 rows, and a history over {matrix_0..2, "
     "reset}; thorough tier: run indices enumerate ALL histories of length 1..5 for each of the 12 (k,max_norm) "
     "configurations (1364 each), then random histories of length 6..12; quick tier: random histories of length "
-    "1..9. Odd run indices additionally inject ECOS failures at seeded (call-since-reset, solver-iteration) "
-    "keys. Oracles: every call returns; after each reset the remaining segment equals, bitwise, a newly "
+    "1..9. Odd run indices additionally inject ECOS failures (SolverError, or a return without variable values as for an "
+    "infeasible/unbounded status) at seeded (call-since-reset, solver-iteration) keys. Oracles: every call returns; after each reset the remaining segment equals, bitwise, a newly "
     "constructed instance fed the same segment (same fault keys); the solver seam is entered on calls 0,k,2k,.. "
     "since reset and never on the others; reuse calls return the weights of a k=1 reference instance fed only "
     "the recompute calls; norm <= max_norm. Non-trivial: history contains a reset after >=1 call, or a reuse "
@@ -73,7 +73,7 @@ def generate(rng, tier, index):
     if index % 2 == 1:
         nf = rng.choice([1, 1, 2, 3])
         for _ in range(nf):
-            faults.append([rng.randint(0, 4), rng.randint(0, 3)])
+            faults.append([rng.randint(0, 4), rng.randint(0, 3), rng.choice(["raise", "raise", "no_value"])])
     return {"params": {"n_tasks": m, "every": k, "max_norm": mn, "niter": niter, "dtype": dtype}, "alphabet": alphabet, "history": hist, "ecos_faults": faults}
 
 
@@ -81,11 +81,14 @@ class SolveSeam:
     """Owns cvxpy.Problem.solve while armed: counts solver entries, fails at scheduled keys."""
 
     def __init__(self, fault_keys):
-        self.fault_keys = {(int(a), int(b)) for a, b in fault_keys}
+        # key -> kind: "raise" (SolverError) or "no_value" (the solver returns with an infeasible/unbounded
+        # status and leaves the variables without a value, as ECOS really does on some inputs)
+        self.fault_keys = {(int(f[0]), int(f[1])): (f[2] if len(f) > 2 else "raise") for f in fault_keys}
         self.call_since_reset = 0
         self.iteration = 0
         self.entries_this_call = 0
         self.fired = 0
+        self.fired_no_value = 0
         self.reached = False
 
     def begin_call(self, call_since_reset):
@@ -107,6 +110,11 @@ class SolveSeam:
             seam.entries_this_call += 1
             if key in seam.fault_keys:
                 seam.fired += 1
+                if seam.fault_keys[key] == "no_value":
+                    seam.fired_no_value += 1
+                    for var in prob.variables():
+                        var.value = None
+                    return None
                 raise cvxpy.error.SolverError("simjd: injected ECOS failure")
             return real(prob, *a, **k)
 
@@ -177,6 +185,7 @@ def execute(scn):
             outs.append(r)
             stats["api_calls"] = stats.get("api_calls", 0) + len(seg)
         stats["fault.ecos_failure_F5"] = seam.fired
+        stats["fault.ecos_no_value_F5"] = seam.fired_no_value
         fired_main = seam.fired
         # ---- oracle: every call returns; solver schedule; norm bound
         for si, seg in enumerate(segments):
